@@ -104,10 +104,46 @@ class Interp(object):
             return self.load_module(name)
         return self.lib.module(name)
 
+    def find_moved(self, modname, name):
+        """the one repo module that now defines the top-level `name`, when it
+        is no longer in modname (a function or class moved between modules
+        keeps its contract); None when there is none or more than one"""
+        import re
+        pat = re.compile(r'^(?:def|class)\s+%s\b' % re.escape(name), re.M)
+        hits = []
+        root = os.path.join(self.repo, 'trashcli')
+        for dp, dn, fn in os.walk(root):
+            for f in fn:
+                if f.endswith('.py'):
+                    p = os.path.join(dp, f)
+                    try:
+                        with open(p) as fh:
+                            if pat.search(fh.read()):
+                                rel = os.path.relpath(p, self.repo)[:-3]
+                                hits.append(rel.replace(os.sep, '.').replace(
+                                    '.__init__', ''))
+                    except (OSError, UnicodeDecodeError):
+                        pass
+        hits = [h for h in hits if h != modname]
+        return hits[0] if len(hits) == 1 else None
+
     def lookup(self, modname, qualname):
         """resolve module + dotted qualname to a value (class attr chain)"""
-        m = self.load_module(modname)
         parts = qualname.split('.')
+        moved_from = None
+        try:
+            m = self.load_module(modname)
+            if parts[0] not in m.globals:
+                raise ContractOutOfDate('gone')
+        except ContractOutOfDate:
+            new = self.find_moved(modname, parts[0])
+            if new is None:
+                raise ContractOutOfDate('%s.%s no longer exists' %
+                                        (modname, qualname))
+            moved_from = modname
+            m = self.load_module(new)
+            self.moved = getattr(self, 'moved', {})
+            self.moved[(modname, parts[0])] = new
         if parts[0] not in m.globals:
             raise ContractOutOfDate('%s.%s no longer exists' %
                                     (modname, qualname))
@@ -124,6 +160,8 @@ class Interp(object):
                                         (modname, qualname))
         if isinstance(v, (StaticM, ClassM)):
             v = v.func
+        if moved_from is not None and isinstance(v, FuncV):
+            v.key_alias = (moved_from, qualname)
         return v
 
     def source_hash(self, fv):
@@ -395,7 +433,7 @@ class Interp(object):
         loops = [n for n in ast.walk(f.node)
                  if isinstance(n, (ast.For, ast.While))]
         loops.sort(key=lambda n: (n.lineno, n.col_offset))
-        return (env.module.name, f.qualname, loops.index(s))
+        return f.key + (loops.index(s),)
 
     def st_While(self, s, env):
         key = self.loop_key(s, env)
